@@ -99,8 +99,14 @@ func printStmt(b *strings.Builder, s *N, d int) {
 		} else {
 			b.WriteString(ExprString(s.Ns[0]) + "[" + ExprString(s.Ns[1]) + "] " + s.Ps[0] + "= " + ExprString(s.Ns[2]) + "\n")
 		}
+	case "setup":
+		// a line of preparation the model does not follow (it touches nothing the model tracks)
+		b.WriteString(s.S + "\n")
 	case "letmem":
 		b.WriteString(ExprString(s.Ns[0]) + "." + s.S + " = " + ExprString(s.Ns[1]) + "\n")
+	case "letderef":
+		// *name = value (see gen_deferargs.go)
+		b.WriteString("*" + ExprString(s.Ns[0]) + " = " + ExprString(s.Ns[1]) + "\n")
 	case "var":
 		b.WriteString("var " + strings.Join(s.Ps, ", ") + " = " + exprList(s.Ns) + "\n")
 	case "if":
@@ -284,16 +290,23 @@ func ExprString(e *N) string {
 			parts = append(parts, ExprString(e.Ns[i])+": "+ExprString(e.Ns[i+1]))
 		}
 		return "map[string]" + e.S + "{" + strings.Join(parts, ", ") + "}"
-	case "map":
+	case "map", "imap":
 		parts := []string{}
 		for i := 0; i+1 < len(e.Ns); i += 2 {
 			parts = append(parts, ExprString(e.Ns[i])+": "+ExprString(e.Ns[i+1]))
+		}
+		if e.K == "imap" {
+			// the typed literal with interface keys and values
+			return "map{" + strings.Join(parts, ", ") + "}"
 		}
 		return "{" + strings.Join(parts, ", ") + "}"
 	case "bin":
 		return "(" + ExprString(e.Ns[0]) + " " + e.S + " " + ExprString(e.Ns[1]) + ")"
 	case "addr":
 		return "&" + ExprString(e.Ns[0])
+	case "deref":
+		// *name: the value a pointer variable points to (see gen_deferargs.go)
+		return "*" + ExprString(e.Ns[0])
 	case "not":
 		return "(!" + ExprString(e.Ns[0]) + ")"
 	case "neg":
@@ -341,6 +354,12 @@ func ExprString(e *N) string {
 		return s + "]"
 	case "mem":
 		return ExprString(e.Ns[0]) + "." + e.S
+	case "rterr":
+		// an expression that raises a runtime error inside the interpreter (S is its text, Ps[0] its class)
+		return e.S
+	case "mkslice":
+		// make([]T, n): S is the element type, I the length
+		return "make([]" + e.S + ", " + strconv.FormatInt(e.I, 10) + ")"
 	case "len":
 		return "len(" + ExprString(e.Ns[0]) + ")"
 	case "in":
